@@ -409,7 +409,7 @@ class DAGRunConcurrentManager(DAGRunManagerLike):
                     exc_info=error,
                 )
 
-                if n_attempts == retry_policy.attempts:
+                if n_attempts >= retry_policy.attempts:
 
                     if node.use_default:
                         return run_node_default(node, **kwargs)
